@@ -94,10 +94,12 @@ def mat(a):
 class Lin:
     """linear-algebra callees (one instance per contract run, fresh-variable counter deterministic per path)"""
 
-    def __init__(self, k):
+    def __init__(self, k, inverse=False):
         self.k = k
         self.n = 0
         self.solves = []  # (A, x, b)
+        self.inverse = inverse  # True: x = Ainv b with an explicit two-sided inverse (A regular), shared between solves with the same matrix
+        self._inv = {}
 
     def bmat(self, blocks, format=None, dtype=None):
         blocks = [list(r) for r in blocks]
@@ -138,6 +140,21 @@ class Lin:
         if A.ndim != 2 or A.shape[0] != A.shape[1] or b.shape[0] != A.shape[0]:
             raise ValueError(f"linear solve: shapes {A.shape} and {b.shape}")
         self.n += 1
+        if self.inverse and A.shape[0]:
+            key = tuple(S._coerce(e).uid for e in A.ravel())
+            if key not in self._inv:
+                n = A.shape[0]
+                Ai = S.symarray(f"inv{len(self._inv)}_", (n, n))
+                with npshim.active(True):
+                    for P in (A @ Ai, Ai @ A):
+                        for i in range(n):
+                            for j in range(n):
+                                self.k.axiom(S._coerce(P[i, j]) == (1 if i == j else 0), "assumed contract of spsolve: the matrix is regular (two-sided inverse exists), x = A^-1 b")
+                self._inv[key] = Ai
+            with npshim.active(True):
+                x = self._inv[key] @ b
+            self.solves.append((A, x, b))
+            return x
         x = S.symarray(f"{tag}{self.n}", b.shape)
         if A.shape[0]:
             with npshim.active(True):
